@@ -89,6 +89,9 @@ func confirmAndWrite(P *Program, job *Job, hs HarnessSpec, cfg map[string]int64,
 			}
 		}
 	}
+	if rf.Native != nil {
+		delete(rf.Native, "log_full")
+	}
 	b, _ := json.MarshalIndent(rf, "", " ")
 	os.WriteFile(rf.Path, b, 0o644)
 	return rf
@@ -131,6 +134,7 @@ func cmdReplay(args []string) int {
 		}
 	}
 	nat := nativeReplay(&rf)
+	delete(nat, "log_full")
 	nb, _ := json.MarshalIndent(nat, "", " ")
 	fmt.Println("native:", string(nb))
 	if len(cexs) > 0 {
